@@ -25,7 +25,8 @@ import gen_shadow  # noqa: E402
 REPO = os.environ.get("VERIF_REPO", "/repo")
 NPROC = int(os.environ.get("VERIF_JOBS", "16"))
 REPLAYS = os.path.join(HERE, "replays")
-EVIDENCE = os.path.join(HERE, "evidence")
+EVIDENCE = os.environ.get("VERIF_EVIDENCE_DIR") or (
+    os.path.join(HERE, "evidence") if os.path.realpath(REPO) == "/repo" else os.path.join(HERE, "tmp", "evidence-scratch"))
 PARTIAL = os.path.join(EVIDENCE, ".partial")
 KNOWN = os.path.join(HERE, "known_findings.json")
 
@@ -499,7 +500,7 @@ STUBS_E2 = ["sample source -> SimSource / scripted fills", "bit sink -> FaultSin
             "storage between writer and parser -> FaultyStore (bit flips, bursts, truncation)"]
 
 
-def write_evidence(prop, tier, seed, parts, wall, violations, known_matched, build_s):
+def write_evidence(prop, tier, seed, parts, wall, violations, known_matched, build_s, cand_samples=()):
     os.makedirs(EVIDENCE, exist_ok=True)
     cov = {"parts": {}}
     evaluations = 0
@@ -519,6 +520,9 @@ def write_evidence(prop, tier, seed, parts, wall, violations, known_matched, bui
         rules.append("[%s/%s] %s" % (engine, sub, merged.get("rule") or RULES.get(engine, "")))
         if "exhaustive" in merged:
             exhaustive = merged["exhaustive"] if exhaustive is None else (exhaustive and merged["exhaustive"])
+    for x in cand_samples:
+        if len(samples) < 6:
+            samples.append({"part": "violating case", "case": x})
     cov["evaluations"] = evaluations
     cov["distinct_nontrivial"] = distinct_nt
     cov["rule"] = " ".join(rules)
@@ -601,7 +605,8 @@ def cmd_check(prop, tier, seed):
         final = finalise_candidate(prop, cand, len(violations))
         violations.append((final, cand))
     wall = time.time() - t0
-    write_evidence(prop, tier, seed, parts, wall, len(violations), known_matched, build_s)
+    write_evidence(prop, tier, seed, parts, wall, len(violations), known_matched, build_s,
+                   [{k: c["file"].get(k) for k in ("workload", "history", "fault", "case", "observed") if k in c["file"]} for c in all_cands[:3]])
     for final, cand in violations:
         r = cand["result"]
         log("  class=%s site=%s %s" % (r.get("class"), r.get("site"), (r.get("detail") or r.get("message") or "")[:300]))
